@@ -190,7 +190,27 @@ func (c *pkGen) genRecv(s *pkSnap) string {
 		memo = "e:-1"
 		c.r.Hit("recv/negative-eibc-fee")
 	}
-	return fmt.Sprintf("recv c%d seq=%d ph=%d den=%s amt=%d to=%s memo=%s", ci, seq, c.proofHeight(s, ri), den, amt, to, memo)
+	ph := c.proofHeight(s, ri)
+	// packet-forward middleware: the received funds are sent on over another hub channel (mostly from the
+	// plain chain towards a rollapp; from a rollapp only a finalized height gets through delayedack)
+	if fw := map[string]int{"C04": 7, "C05": 9}[c.focus] + 5; c.g.Chance(fw) {
+		if c.g.Chance(65) {
+			ci, ri = 2, -1
+			seq = c.nextRcv[ci]
+			c.nextRcv[ci]++
+			ph = c.proofHeight(s, ri)
+		} else if ri >= 0 && s.FinH[ri] >= 0 && c.g.Chance(70) {
+			ph = uint64(s.FinH[ri])
+			c.r.Hit("recv/forward-from-rollapp-at-finalized-height")
+		}
+		k := []int{0, 0, 0, 1, 1, 2, 3, 9}[c.g.Intn(8)]
+		if k == ci {
+			c.r.Hit("recv/forward-back-over-the-same-channel")
+		}
+		memo = "fw:c" + strconv.Itoa(k)
+		c.r.Hit("recv/forward-memo")
+	}
+	return fmt.Sprintf("recv c%d seq=%d ph=%d den=%s amt=%d to=%s memo=%s", ci, seq, ph, den, amt, to, memo)
 }
 
 func (c *pkGen) genSend(s *pkSnap) string {
